@@ -1156,7 +1156,11 @@ func (w *World) plumbing(fn *ssa.Function) bool {
 				if len(cs) == 0 {
 					// an out-of-scope callee: fine when static (SDK/stdlib value functions); a dynamic call could do anything
 					if cc.StaticCallee() == nil && !cc.IsInvoke() && funcVarOf(cc.Value) == nil {
-						return false
+						// a callback handed in as a parameter stays visible in the inlined expression (dyn(<the argument>, ...)):
+						// nothing it does is hidden from a rule; any other dynamic call could do anything
+						if _, isParam := cc.Value.(*ssa.Parameter); !isParam {
+							return false
+						}
 					}
 					if cc.IsInvoke() && !pureIfaceMethod(cc) {
 						return false
